@@ -5,8 +5,35 @@ from stdmodel import StdHooks
 from poly import Poly
 
 
+class BitwiseCompare(Exception):
+    def __init__(self, where):
+        self.where = where
+
+
+class EqHooks(StdHooks):
+    def external_call(self, it, name, node, args, this_cell):
+        base = name.split('<')[0]
+        if base in ('memcmp', 'std::memcmp', '__builtin_memcmp', 'bcmp'):
+            # a byte-wise comparison is not numeric equality: +0.0 / -0.0 differ, identical NaNs compare equal
+            raise BitwiseCompare(it.loc(node))
+        if base == 'std::equal' and len(args) == 3:
+            a, b, c = it.eval(args[0]), it.eval(args[1]), it.eval(args[2])
+            n = b.off - a.off
+            res = 1
+            for k in reversed(range(n)):
+                x = it.read(it.deref(it.ptr_add(a, k), node), node)
+                y = it.read(it.deref(it.ptr_add(c, k), node), node)
+                cnd = it.compare('!=', x, y, node)
+                if isinstance(cnd, Cond):
+                    res = ITE(cnd, 0, res)
+                elif cnd:
+                    res = 0
+            return res
+        return StdHooks.external_call(self, it, name, node, args, this_cell)
+
+
 def _run(db, f, this, other):
-    it = Interp(db.unit('SUNalg'), StdHooks())
+    it = Interp(db.unit('SUNalg'), EqHooks())
     r = it.call(f, this, [other])
     return r
 
@@ -21,6 +48,15 @@ def _truth(v):
 
 def analyse_equality(db, f):
     """yields (site, ok, expected, found)"""
+    try:
+        for x in _analyse_equality(db, f):
+            yield x
+    except BitwiseCompare as e:
+        yield ('operator==/bitwise', False, 'components compared numerically (a[k] != b[k])',
+               'byte-wise comparison at %s: +0.0 and -0.0 compare unequal, identical NaN patterns compare equal' % e.where)
+
+
+def _analyse_equality(db, f):
     # 1. different dimensions -> false, for every ordered pair
     for d1 in (2, 3, 4, 5, 6):
         for d2 in (2, 3, 4, 5, 6):
